@@ -208,6 +208,12 @@ def build_parser(shape, eoe, mode, variant, files_dir):
         p.add_argument("--mdc", type=Dict[str, M.DC])
         p.add_argument("--dc2", type=M.DC2)
         p.add_class_arguments(M.Base, "cls")
+        from jsonargparse import ActionParser
+
+        inner = ArgumentParser(exit_on_error=eoe)
+        inner.add_argument("--v", type=int, default=1)
+        inner.add_argument("--w.z", type=List[int])
+        p.add_argument("--ap", action=ActionParser(parser=inner))
     elif shape == "subcommands":
         p.add_argument("--cfg", action=ActionConfigFile)
         p.add_argument("--t", type=int, default=0)
@@ -267,7 +273,7 @@ def build_parser(shape, eoe, mode, variant, files_dir):
 # option names per shape (the known ones; the grammar derives unknown / malformed ones from them)
 OPTS = {
     "leaves": ["i", "s", "li", "la", "d", "f", "b", "da", "oi", "u", "e", "lit", "t", "pos", "any", "pth", "lpth", "yn", "no_yn", "plain", "ch", "req"],
-    "groups": ["cfg", "g.a", "g.b.c", "g.l", "g", "g.b", "dc", "dc.x", "dc.y", "odc", "odc.x", "ldc", "mdc", "mdc.k", "dc2", "dc2.d.x", "dc2.d", "dc2.n", "cls.a", "cls.name", "cls"],
+    "groups": ["cfg", "g.a", "g.b.c", "g.l", "g", "g.b", "dc", "dc.x", "dc.y", "odc", "odc.x", "ldc", "mdc", "mdc.k", "dc2", "dc2.d.x", "dc2.d", "dc2.n", "cls.a", "cls.name", "cls", "ap", "ap.v", "ap.w.z", "ap.w"],
     "subcommands": ["cfg", "t", "s1.a", "s1", "s2", "a", "b", "n.x", "lst", "c", "subcommand", "p", "q", "sub2"],
     "subclass": ["cfg", "c", "c.a", "c.init_args.a", "c.class_path", "c.init_args", "c.dict_kwargs.k", "c.b", "c.inner", "c.inner.a", "c.inner.init_args.a",
                  "c.help", "oc", "oc.a", "lc", "lc.a", "mc", "mc.k", "cal", "cal.firstweekday", "fn", "fc", "fc.a", "ty", "uc", "uc.c", "rc", "rc.must"],
@@ -285,6 +291,7 @@ def strs(m):
         "[1, 2", '{"a": 1', "[1, 2]", '["a", "b"]', '{"a": 1}', "{a: 1}", '{"a": {"b": [1, {"c": null}]}}', "[]", "{}", "[[[[[[1]]]]]]",
         "&a [*a]", "*a", "&a 1", "cfg: x", "{cfg: 3}", "cfg: @F:good", "[&a 1, *a]", "&a [1, *a, 2]", "{k: &a [*a]}", "!!python/object:os.system x", "!!binary x", "!!set {a, b}",
         "? [1]\n: 1", '"', "'", "a: b: c", "\t", "a\x00b", "é", " ", "x" * 300, "@HUGEINT", "9" * 400, "-0", "nan", "inf", "1e999", "yes", "~",
+        "\u00b2", "\u00b9\u00b2\u00b3", "-\u00b3", "\u2460", " \u00b2 ", "\u0663", "\u00bd", "\uff11", "1\u00b2", "\u00b2.5", "1e\u00b2", "0x1\u00b2",
         "no.such", "os.nosuch", "os.path", "os.sep", "calendar.Calendar", "calendar.TextCalendar", "calendar", "Calendar", "TextCalendar",
         m + ".Base", m + ".Sub", m + ".Other", m + ".Req", m + ".fn", m + ".make_base", m + ".DC", m + ".not_a_class", m + ".nosuch", "Base", "Sub", "Other",
         "a..b", ".a", "a.", "1.2.3", "a b", "x,y", "a=b", "=",
@@ -419,7 +426,7 @@ def gen_obj(rng, shape, m, depth=0):
 
 
 RAW_TEXTS = [
-    "", " ", "\n", "[1]", "3", "null", "x", "a: 1\n---\nb: 2\n", "a: [\n", "{", "}", "a: b: c", "\ta: 1", "a: 1\n\tb: 2", "? [1]\n: 1", "1: 1", "null: 1", "true: 1", '"": 1',
+    "", " ", "\n", "[1]", "3", "null", "x", "\u00b2", "-\u00b3", " \u2460 ", "i: \u00b2", "li: [\u00b2, \u0663]", "f: \u00b2.5", "a: 1\n---\nb: 2\n", "a: [\n", "{", "}", "a: b: c", "\ta: 1", "a: 1\n\tb: 2", "? [1]\n: 1", "1: 1", "null: 1", "true: 1", '"": 1',
     "i: 0x_", "s: ._", "i: 0b_", "la: &a [*a]", "la: &a\n- *a\n", "la: [&a [1], *a, *a]", "la: *nope", "i: !!python/object:os.system x", "s: !!binary x",
     "d: !!set {a, b}", "li: !!python/tuple [1]", "a\x00: 1", "﻿i: 1", "i: 1\r\ns: y\r\n", "i: 1 # c", "%YAML 9.9\n---\ni: 1", "i: @HUGEINT", "la: [@HUGEINT]", "f: 1e999",
     "<<: {i: 2}", "i: 1\ni: 2", "{i: 1, i: 2}", '{"i": 1}', '{"i": "x"}', '{"i": 1,}', "{'i': 1}", '{"i": NaN}', '{"la": [1, 2}', '[{"i": 1}]', '{"i": 1} x', '{"i": 1e999}',
@@ -477,6 +484,16 @@ def gen_case(rng, thorough=False):
                "defcfg": rng.random() < 0.12}
     case = {"shape": shape, "eoe": rng.random() < 0.5, "mode": mode, "method": method, "variant": variant,
             "stdin": rng.choice(["empty", "empty", "closed", "text"]), "files": {}}
+    if rng.random() < 0.2:
+        kw = {}
+        if rng.random() < 0.5:
+            kw["defaults"] = False
+        if method != "parse_env" and rng.random() < 0.4:
+            kw["env"] = rng.choice([True, False])
+        if rng.random() < 0.4:
+            kw["with_meta"] = rng.choice([True, False])
+        if kw:
+            case["kw"] = kw
     if shape == "defcfg" or variant["defcfg"]:
         r = rng.random()
         if r < 0.5:
@@ -674,6 +691,7 @@ def run_case(case):
         method = case["method"]
         inp = case.get("input")
         names = env_names(parser)
+        kw = dict(case.get("kw") or {})
         if case.get("env") is not None and method != "parse_env":
             for k, v in case["env"].items():
                 var = k[5:] if k.startswith("@RAW:") else names.get(k, "APP_" + k.replace(".", "__").upper())
@@ -690,22 +708,22 @@ def run_case(case):
             sys.stdin = io.StringIO("")
         if method == "parse_args":
             arg = [resolve_str(a, files_dir) for a in inp]
-            call = lambda: parser.parse_args(arg)  # noqa: E731
+            call = lambda: parser.parse_args(arg, **kw)  # noqa: E731
         elif method == "parse_object":
             arg = resolve_obj(inp, files_dir)
-            call = lambda: parser.parse_object(arg)  # noqa: E731
+            call = lambda: parser.parse_object(arg, **kw)  # noqa: E731
         elif method == "parse_string":
             arg = resolve_str(inp, files_dir)
-            call = lambda: parser.parse_string(arg)  # noqa: E731
+            call = lambda: parser.parse_string(arg, **kw)  # noqa: E731
         elif method == "parse_env":
             arg = {}
             for k, v in inp.items():
                 var = k[5:] if k.startswith("@RAW:") else names.get(k, "APP_" + k.replace(".", "__").upper())
                 arg[var] = resolve_str(v, files_dir)
-            call = lambda: parser.parse_env(arg)  # noqa: E731
+            call = lambda: parser.parse_env(arg, **kw)  # noqa: E731
         else:
             arg = resolve_str(inp, files_dir)
-            call = lambda: parser.parse_path(arg)  # noqa: E731
+            call = lambda: parser.parse_path(arg, **kw)  # noqa: E731
         old_handler = signal.signal(signal.SIGALRM, _alarm)
         signal.setitimer(signal.ITIMER_REAL, CASE_TIMEOUT)
         try:
@@ -731,7 +749,7 @@ def run_case(case):
             res["outcome"] = "raise:RecursionError"
             res["msg"] = str(ex)[:200]
             fr = frames_of(ex.__traceback__)
-            res["frames"] = fr[:6] + fr[-6:]
+            res["frames"] = fr[:24] + fr[-8:]
             res["root"] = tracer.root_of(ex)
         except Exception as ex:  # noqa: BLE001 - the class that escapes is the observation
             signal.setitimer(signal.ITIMER_REAL, 0)
